@@ -2018,6 +2018,32 @@ func c07e(c *Ctx) {
 							if bt, isB := ph.Type().Underlying().(*types.Basic); !isB || bt.Kind() != types.Int || strings.Contains(ph.Comment, "rangeindex") {
 								continue
 							}
+							// the sum starts from nothing (the codes) or from the width of the codes (the
+							// characters), and the sum is what the function hands back
+							for i, e := range ph.Edges {
+								if b.Dominates(b.Preds[i]) {
+									continue
+								}
+								okStart := false
+								if k, isC := intConst(e); isC && k == 0 {
+									okStart = true
+								}
+								if ex, isEx := e.(*ssa.Extract); isEx && ex.Index == 1 {
+									if call, isCall := ex.Tuple.(*ssa.Call); isCall && callee(call) == pcc {
+										okStart = true
+									}
+								}
+								c.Check(okStart, fmt.Sprintf("width-chain/sum-starts-right/%s/%s", sf.Name(), flagName(c.term(sf, ph))), c.W.Pos(ph.Pos()), "the sum starts at 0 or at the width of the word's control codes", sf.Name()+" starts its sum at "+pretty(c.term(sf, e))+": expected 0, or the width processControlCodes found")
+							}
+							for k, r := range returnsOf(sf) {
+								var res ssa.Value
+								for _, x := range r.Results {
+									if bt, isB := x.Type().Underlying().(*types.Basic); isB && bt.Kind() == types.Int {
+										res = x
+									}
+								}
+								c.Check(res == ssa.Value(ph), fmt.Sprintf("width-chain/sum-is-returned/%s#%d", sf.Name(), k), c.W.Pos(r.Pos()), "the width handed back is the sum", sf.Name()+" hands back "+pretty(c.term(sf, res))+" instead of the sum of the widths it has added up")
+							}
 							for i, e := range ph.Edges {
 								if !b.Dominates(b.Preds[i]) {
 									continue
